@@ -55,5 +55,11 @@ with ThreadPoolExecutor(max_workers=par) as ex:
         matrix[name] = row
         json.dump(matrix, open('mutants/matrix.json', 'w'), indent=1, sort_keys=True)
 json.dump(matrix, open('mutants/matrix.json', 'w'), indent=1, sort_keys=True)
-missed = [n for n, r in matrix.items() if any(isinstance(v, dict) and v.get('exit') != 1 for k, v in r.items() if k.startswith('C'))]
-print('missed/not-violation:', missed)
+def caught(r):
+    return any(isinstance(v, dict) and v.get('exit') == 1 for k, v in r.items() if k.startswith('C'))
+
+
+missed = [n for n, r in matrix.items() if not caught(r)]
+partial = [n for n, r in matrix.items() if caught(r) and any(isinstance(v, dict) and v.get('exit') != 1 for k, v in r.items() if k.startswith('C'))]
+print('caught by no expected check:', missed)
+print('caught, but not by every expected check:', partial)
